@@ -279,9 +279,13 @@ def check(run):
             for e in ([x for x in (E.EINTR, E.EAGAIN) if x in errs] or errs[:1]):
                 plans.append("%s#*:%d" % (fn, e))
         if thorough and len(pos) >= 2:
-            for _ in range(min(150, len(pos) * 2)):
+            for _ in range(min(2000, len(pos) * 12)):
                 (k1, f1), (k2, f2) = sorted(rng.sample(pos, 2))
                 plans.append("%d:%d,%d:%d" % (k1, rng.choice(PLAUSIBLE.get(f1, [E.EIO])), k2, rng.choice(PLAUSIBLE.get(f2, [E.EIO]))))
+                state["pairs"] += 1
+            for _ in range(min(600, len(pos) * 4) if len(pos) >= 3 else 0):
+                tr = sorted(rng.sample(pos, 3))
+                plans.append(",".join("%d:%d" % (k, rng.choice(PLAUSIBLE.get(f, [E.EIO]))) for (k, f) in tr))
                 state["pairs"] += 1
         # scripted results of the real exec vary as well
         rcs = [(-1, [E.ENOENT, E.EACCES, E.E2BIG, E.ENOEXEC][i % 4]) if i % 5 else (0, 0) for i in range(len(plans))]
@@ -300,7 +304,7 @@ def check(run):
                 state["samples"].append({"scenario": s["name"], "trace_len": len(res["calls"][0]["io"]), "first_calls": [r[1] for r in res["calls"][0]["io"][:8]]})
     # ---- thorough: strace --inject single faults over the raw syscall stream (search only)
     if thorough and not run.violations:
-        strace_search(run, lib, [s for s in scs if s["name"] in ("file-all-datasources", "socket", "devlog-ident-template")], state, report)
+        strace_search(run, lib, [s for s in scs if s["name"] in ("file-all-datasources", "socket", "devlog-ident-template", "terminal-on-stdin", "stdout", "stderr", "file-path-template", "errlog-ident-overflow")], state, report)
     # ---- the model: acceptance of every observed trace + the property on the observed calls
     cp = os.path.join(run.scratch, "c03-cases.txt")
     open(cp, "w").write("".join(c + "\n" for c in cases))
@@ -349,31 +353,69 @@ def check(run):
                                    "allocation failure and dlsym failure are outside the domain"])
 
 
+STRACE_ERRS = {"openat": ["ENOENT", "EMFILE", "EINTR"], "read": ["EIO", "EINTR", "EAGAIN"], "write": ["ENOSPC", "EIO", "EINTR", "EAGAIN"], "close": ["EIO", "EINTR"],
+               "socket": ["EMFILE", "ENOBUFS"], "connect": ["ECONNREFUSED", "ENOENT", "EAGAIN", "EINTR"], "sendto": ["EAGAIN", "ENOBUFS", "ECONNREFUSED", "EINTR"],
+               "newfstatat": ["EACCES", "EIO"], "fstat": ["EIO"], "getcwd": ["ENOENT"], "ioctl": ["ENOTTY", "EIO"], "readlink": ["EACCES"], "readlinkat": ["EACCES"],
+               "lseek": ["ESPIPE"], "access": ["EACCES"], "faccessat": ["EACCES"], "fcntl": ["EINTR", "EAGAIN"], "statx": ["EACCES"], "getdents64": ["EIO"]}
+
+
 def strace_search(run, lib, scs, state, report):
-    """syscall-level single faults (raw syscall stream, including the calls glibc makes internally): search, not proof"""
-    inj = [("openat", "ENOENT"), ("openat", "EMFILE"), ("read", "EIO"), ("write", "ENOSPC"), ("close", "EIO"), ("socket", "EMFILE"), ("connect", "ECONNREFUSED"),
-           ("sendto", "EAGAIN"), ("newfstatat", "EACCES"), ("fstat", "EIO"), ("getcwd", "ENOENT"), ("ioctl", "ENOTTY"), ("readlink", "EACCES"), ("lseek", "ESPIPE")]
+    """single faults over the RAW syscall stream between the harness markers (including the syscalls glibc makes inside one abstract
+    call of the model): search, not proof.  A first traced run locates, per syscall name, the occurrences between the markers; then one
+    run per (occurrence, errno) with strace -e inject=<syscall>:error=<errno>:when=<n>.  libfault only writes its markers (VERIF_FAULT_QUIET)."""
+    names = ",".join(sorted(STRACE_ERRS))
     jobs = []
     for s in scs:
-        for (sysc, err) in inj:
-            for when in (1, 2, 3, 5, 8, 13):
-                jobs.append((s, sysc, err, when))
+        tag = "st-%s-base" % re.sub(r"[^a-z0-9]+", "-", s["name"])
+        script = script_of(s, ["-"])
+        log = os.path.join(run.scratch, tag + ".strace")
+        res = run_fscript(run, lib, script, tag, strace=["-f", "-o", log, "-e", "trace=" + names, "-E", "VERIF_FAULT_QUIET=1"])
+        if not os.path.exists(log):
+            continue
+        before, between, phase = {}, {}, 0
+        for line in open(log, errors="replace"):
+            m = re.match(r"^\d+\s+(\w+)\(", line)
+            if not m:
+                continue
+            sysc = m.group(1)
+            if sysc == "write" and '"mark\\tbegin' in line:
+                before[sysc] = before.get(sysc, 0) + 1
+                phase = 1
+                continue
+            if sysc == "write" and '"mark\\texec' in line:
+                phase = 2
+                continue
+            if phase == 0:
+                before[sysc] = before.get(sysc, 0) + 1
+            elif phase == 1:
+                between[sysc] = between.get(sysc, 0) + 1
+        if phase != 2:
+            continue
+        for sysc, n in sorted(between.items()):
+            occ = list(range(1, n + 1))
+            if n > 40:
+                occ = occ[:20] + run.rng.sample(occ[20:], 20)
+            for j in occ:
+                for err in STRACE_ERRS.get(sysc, []):
+                    jobs.append((s, script, sysc, err, before.get(sysc, 0) + j))
 
     def one(j):
-        s, sysc, err, when = j
-        d_tag = "st-%s-%s-%s-%d" % (re.sub(r"[^a-z0-9]+", "-", s["name"]), sysc, err, when)
-        script = script_of(s, ["-"])
-        # the injection counts syscalls of the whole process; only those after the harness marker matter, so a range is injected
-        return (j, script, run_fscript(run, lib, script, d_tag, strace=["-f", "-o", "/dev/null", "-e", "trace=%s" % sysc, "-e", "inject=%s:error=%s:when=%d+" % (sysc, err, 40 + when * 7)]))
-    for (j, script, res) in run_many(one, jobs, workers=6):
-        s, sysc, err, when = j
+        s, script, sysc, err, when = j
+        tag = "st-%s-%s-%s-%d" % (re.sub(r"[^a-z0-9]+", "-", s["name"]), sysc, err, when)
+        return (j, run_fscript(run, lib, script, tag, strace=["-f", "-o", "/dev/null", "-e", "trace=" + sysc, "-e", "inject=%s:error=%s:when=%d" % (sysc, err, when), "-E", "VERIF_FAULT_QUIET=1"]))
+    for (j, res) in run_many(one, jobs, workers=6):
+        s, script, sysc, err, when = j
         state["strace"] += 1
         if not res["calls"]:
-            continue       # the injection hit the harness before the call (setup failed): not a verdict
+            continue
         c = res["calls"][0]
-        v = judge_call(c, None, (-1, E.ENOENT))
-        if v and v[1] not in ("exec-result",):
-            report(s, script, 0, "strace inject=%s:error=%s" % (sysc, err), v[0], "strace:" + v[1], v[2] + " (syscall-level injection %s=%s)" % (sysc, err))
+        plan = "strace inject=%s:error=%s:when=%d" % (sysc, err, when)
+        # the injection may also have hit one of the harness's own record writes: only verdicts that do not depend on a complete record count
+        if c["fatal"]:
+            v = judge_call(c, None, (-1, E.ENOENT))
+            report(s, script, 0, plan, v[0], "strace:" + v[1], v[2] + " (syscall-level injection)")
+        elif c["ret"] is not None and (c["ret"][4] != "1" or c["ret"][6] != "-"):
+            report(s, script, 0, plan, "spec_violation", "strace:exec-or-signal", "real exec reached %s times, signals %s (syscall-level injection)" % (c["ret"][4], c["ret"][6]))
 
 
 def replay(run, path):
@@ -390,11 +432,16 @@ def replay(run, path):
         return 1
     d = os.path.join(run.scratch, "f-replay")
     os.makedirs(d, exist_ok=True)
+    plan = (rep.get("failing_input") or {}).get("fault_plan", "")
+    st = None
+    if plan.startswith("strace inject="):
+        spec = plan[len("strace inject="):]
+        st = ["-f", "-o", "/dev/null", "-e", "trace=" + spec.split(":")[0], "-e", "inject=" + spec, "-E", "VERIF_FAULT_QUIET=1"]
     if any("/full/" in l for l in script):
         with TmpfsFull(d):
-            res = run_fscript(run, lib, script, "replay")
+            res = run_fscript(run, lib, script, "replay", strace=st)
     else:
-        res = run_fscript(run, lib, script, "replay")
+        res = run_fscript(run, lib, script, "replay", strace=st)
     i = rep.get("call_index", 0)
     print("process status:", res["status"], res["stderr"][-300:])
     bad = 0
